@@ -11,7 +11,7 @@ import json, os, re, shutil, subprocess, sys, time
 
 V = os.path.dirname(os.path.dirname(os.path.abspath(__file__)))
 PINNED = [t.split("::", 1)[1] for t in json.load(open("/root/.vp/BASELINE.json"))["stable_pass"]]
-TARGET = "/tmp/vs_target"
+TARGET = os.environ.get("VS_TARGET", "/tmp/vs_target")
 PY312 = os.path.expanduser("~/.pyenv/versions/3.12.1/bin/python3")
 PYENV = {"PYENV_VERSION": "3.12.1", "PYO3_USE_ABI3_FORWARD_COMPATIBILITY": "1",
          "PATH": os.path.dirname(PY312) + os.pathsep + os.environ.get("PATH", "")}
